@@ -147,6 +147,10 @@ type Sim struct {
 	keep     []any
 	raceSeen map[string]bool
 	atomVC   map[uintptr]*VC
+
+	poolFresh bool
+	idPtrs    []*int
+	pools     []*Pool
 }
 
 var cur *Sim
@@ -202,6 +206,13 @@ func Run(cfg RunConfig, ch Chooser, mainFn func()) *Result {
 		}
 		t.wake <- struct{}{}
 		<-t.exited
+	}
+	for _, p := range s.idPtrs {
+		*p = 0
+	}
+	for _, p := range s.pools {
+		p.items = nil
+		p.seen = false
 	}
 	s.res.Hash = s.hash
 	s.res.ShapeHash = s.shape
@@ -506,6 +517,9 @@ func (s *Sim) objID(p *int) int {
 	if *p == 0 {
 		s.nextObj++
 		*p = s.nextObj
+		// package-level objects of rewritten code outlive the run: their
+		// identity must not leak into the next run of this process
+		s.idPtrs = append(s.idPtrs, p)
 	}
 	return *p
 }
